@@ -103,7 +103,8 @@ def run_case(mods, em, kinds, regs_spec, langsets, how, ev_lang, ev_kind, rep, s
     log = []
     regs = []
     handlers = []
-    for hid, (kind, li, r, w) in enumerate(regs_spec):
+    shared = {}
+    for hid, (kind, li, r, w, *cid) in enumerate(regs_spec):
         form, langs = langsets[li]
 
         def h(data, hid=hid, r=r, w=w):
@@ -111,6 +112,12 @@ def run_case(mods, em, kinds, regs_spec, langsets, how, ev_lang, ev_kind, rep, s
             if w:
                 data.out_data = ("out", hid)
             return r
+        if cid:
+            # the same callable registered more than once (same return / write behaviour, one identity)
+            if cid[0] in shared:
+                h, hid = shared[cid[0]]
+            else:
+                shared[cid[0]] = (h, hid)
         arg = langs if form == "str" else (set(langs) if form == "set" else list(langs))
         handlers.append((kind, arg, h, form))
         coll = (langs,) if form == "str" else tuple(langs)
@@ -147,9 +154,9 @@ def run_case(mods, em, kinds, regs_spec, langsets, how, ev_lang, ev_kind, rep, s
         if any(bool(p(got)) != bool(p(exp_ret)) for p in preds) or (got & 14) != (exp_ret & 14):
             bad = ("combined-return", f"notify returned {got}, union of flags is {exp_ret}")
     if bad:
-        desc = f"{how} regs={[(('K1' if k == k1 else 'K2' if k == k2 else 'UNK'), langsets[li], r, w) for k, li, r, w in regs_spec]} event=({ev_lang},{'K1' if ev_kind == k1 else 'K2' if ev_kind == k2 else 'UNK'})"
+        desc = f"{how} regs={[(('K1' if k == k1 else 'K2' if k == k2 else 'UNK'), langsets[li], r, w, *c) for k, li, r, w, *c in regs_spec]} event=({ev_lang},{'K1' if ev_kind == k1 else 'K2' if ev_kind == k2 else 'UNK'})"
         rep.append((bad[0], bad[1] + "  " + desc,
-                    {"how": how, "regs": [[('K1' if k == k1 else 'K2' if k == k2 else 'UNK'), li, r, w] for k, li, r, w in regs_spec],
+                    {"how": how, "regs": [[('K1' if k == k1 else 'K2' if k == k2 else 'UNK'), li, r, w, *c] for k, li, r, w, *c in regs_spec],
                      "ev_lang": ev_lang, "ev_kind": 'K1' if ev_kind == k1 else 'K2' if ev_kind == k2 else 'UNK'},
                     len(regs_spec), desc))
 
@@ -178,6 +185,20 @@ def worker(task):
                     run_case(mods, em, kinds, spec, langsets, how, ev_lang, k1, rep, stats)
                     if len(rep) > 50:
                         return rep, stats
+    elif mode == "shared-callable":
+        # lists of 3 registrations made from two callables A (behaviour `first`) and B, at least one registered twice,
+        # every language set per registration: a callable registered twice is two registrations (runs at both places)
+        for rb, wb in ((0, False), (1, True), (3, False), (5, True)):
+            for who in itertools.product("AB", repeat=3):
+                if len(set(who)) == 1 and who[0] == "B":
+                    continue
+                for lis in itertools.product(range(len(langsets)), repeat=3):
+                    spec = [(k1, lis[i]) + ((first[1], first[2], "A") if who[i] == "A" else (rb, wb, "B")) for i in range(3)]
+                    stats["registrations"] += 1
+                    for ev_lang in ("python", "java"):
+                        run_case(mods, em, kinds, spec, langsets, "register", ev_lang, k1, rep, stats)
+                        if len(rep) > 50:
+                            return rep, stats
     elif mode == "two-kind":
         # lists of n handlers each on K1 / K2 / unknown kind; events of K1, K2 and the unknown kind
         kindsel = [k1, k2, unknown]
@@ -238,6 +259,9 @@ def main():
     for f in allv:
         tasks.append(("same-kind", f, 1, "all"))
         tasks.append(("same-kind", f, 2, "all"))
+    for r in RETURNS_REDUCED:
+        for w in ((False, True) if r is not None else (False,)):
+            tasks.append(("shared-callable", (0, r, w), 3, "reduced"))
     for i in range(len(HIST_OPS)):
         tasks.append(("history", i, 4 if quick else 5, "hist"))
     if quick:
@@ -410,7 +434,7 @@ def replay(path):
             print(f"VIOLATION property={PID} replay={path}")
         return 1 if rep else 0
     km = {"K1": k1, "K2": k2, "UNK": unknown}
-    spec = [(km[k], li, r, w) for k, li, r, w in c["regs"]]
+    spec = [(km[k], li, r, w, *cid) for k, li, r, w, *cid in c["regs"]]
     rep = []
     stats = {"notifies": 0, "handler_runs": 0, "outcomes": {}}
     run_case(mods, em, kinds, spec, LANGSETS, c["how"], c["ev_lang"], km[c["ev_kind"]], rep, stats)
